@@ -4,7 +4,7 @@ from engine.qb import (AnalysisBroken, abstract_run, estr, unwrap, cval, walk, l
 from engine.bounds import Analysis, Lin, State
 from rules.common import field_is, has_call, derives, value_sources
 
-UNITS = ['lib/log_format.c', 'lib/log_blackbox.c']
+UNITS = ['lib/log_format.c', 'lib/log_blackbox.c', 'lib/ringbuffer.c']
 TECHNIQUE = ('static analysis: abstract interpretation over linear inequalities for every encoder/decoder store, per-directive '
              'finite evaluation of both switch tables (bytes appended vs. consumed), upward-exposed-use analysis of the directive loops')
 DECIDES = ('Decides that every store of the encoder stays within max_len and every store of the decoder within str_len / the '
